@@ -254,8 +254,13 @@ func chunkPattern(ch *Chooser, kind string) []int {
 	default:
 		n := 1 + ch.Intn(kind+"n", 5)
 		out := make([]int, n)
+		nonzero := false
 		for i := range out {
 			out[i] = ch.Intn(kind+"v", 9000)
+			nonzero = nonzero || out[i] > 0
+		}
+		if !nonzero {
+			out[len(out)-1] = 1 // a reader that returns (0, nil) for ever is outside any contract
 		}
 		return out
 	}
